@@ -583,7 +583,22 @@ class Symbolic(
 
     if not path_value_pairs and raise_on_no_change:
       raise ValueError(self._error_message('There are no values to rebind.'))
-    updates = self._sym_rebind(path_value_pairs)
+    try:
+      updates = self._sym_rebind(path_value_pairs)
+    except BaseException:
+      # The batch may have been applied in part: settle the structure of every
+      # container of the sub-tree before propagating the error.
+      visited = set()
+      def _finalize(node: 'Symbolic'):
+        if id(node) in visited:
+          return
+        visited.add(id(node))
+        node._finalize_updates()   # pylint: disable=protected-access
+        for v in node.sym_values():
+          if isinstance(v, Symbolic):
+            _finalize(v)
+      _finalize(self)
+      raise
 
     # Let the updated containers settle their structure (e.g. list deletion and
     # re-indexing), which shall not depend on whether change notification is
